@@ -663,6 +663,15 @@ func runENTRYINV(c *Ctx) {
 				}
 				return false, "a length that is not the number of keys"
 			}
+			if b, ok := x.Call.Value.(*ssa.Builtin); ok && (b.Name() == "max" || b.Name() == "min") {
+				// max(len(Value)-1, 0): every operand is itself an admissible position
+				for _, a := range x.Call.Args {
+					if ok, why := okVal(a, at, seen); !ok {
+						return false, why
+					}
+				}
+				return true, b.Name() + " of admissible positions"
+			}
 		case *ssa.BinOp:
 			k, isK := ir.ConstInt(x.Y)
 			if !isK {
